@@ -14,9 +14,9 @@ PID = "C11"
 DEFS = ("mpt_loop=drv_mpt_loop", "mpt_notify_wait=hk_notify_wait", "mpt_notify_next=hk_notify_next")
 CFG = {
     "quick":    dict(mcs=["MC_Notify.cfg"], gens=["Gen_Notify.cfg"], dump=False, poll_gen=None, poll_every=4,
-                     nhist=24, steps=50),
+                     cxx_every=3, nhist=24, steps=50),
     "thorough": dict(mcs=["MC_Notify_t.cfg", "MC_Notify_t3.cfg"], gens=["Gen_Notify_t.cfg"], dump=True,
-                     poll_gen="Gen_Notify_p.cfg", poll_every=1, nhist=300, steps=120),
+                     poll_gen="Gen_Notify_p.cfg", poll_every=1, cxx_every=1, nhist=300, steps=120),
 }
 POLL_SRC = tuple("mptio/notify/notify_%s.c" % n for n in ("add", "wait", "next", "fini", "bind", "connect"))
 ENV = {"ASAN_OPTIONS": vlib.ASAN_ENV + ":symbolize=0"}
@@ -37,6 +37,20 @@ def enabled():
 def build():
     return vlib.build_driver("notify", ["notify.c"], libs=("mptio", "mptcore"), defines=DEFS,
                              repo_sources=("mptio/notify/loop.c",))
+
+
+def build_cxx():
+    """the mpt++ notify class with inputs derived from the C++ input interface (drv/notify_cxx.cpp)"""
+    return vlib.build_driver("notify_cxx", ["notify_cxx.cpp"], libs=("mpt++", "mptio", "mptcore"), cxx=True)
+
+
+CXX_ACTIONS = {"init", "attach", "set", "clear", "seterror", "add", "addsame", "addbad", "send", "shut", "wait", "next",
+               "dispatch", "default", "unreg", "fini"}
+
+
+def cxx_subset(behs):
+    """behaviours the C++ driver can execute: harness and socket-pair inputs, no listener, no mpt_loop"""
+    return [b for b in behs if all(st["a"] in CXX_ACTIONS and (st["a"] != "add" or st["arg"]["k"] in "hs") for st in b)]
 
 
 def build_poll():
@@ -69,7 +83,7 @@ def kinds_of(beh, upto):
     return "".join(ks) or "-"
 
 
-MODE = [""]      # "" = epoll (the library as built), "poll:" = the portable poll() path
+MODE = [""]      # "" = epoll (the library as built), "poll:" = the portable poll() path, "cxx:" = mpt++ notify
 
 
 def signature(step, why, beh=None, i=0):
@@ -131,6 +145,9 @@ def validate(ck, events, what, behs, binding):
         if not ok2 and matched2 == matched:
             ev = events[matched] if matched < len(events) else None
             beh = behs[ev["b"]] if ev and ev.get("b") is not None and ev["b"] < len(behs) else None
+            saved = MODE[0]
+            if ev and ev.get("cxx"):
+                MODE[0] = "cxx:"
             if ev is None:
                 sig = "x:notify:trace:short"
             elif ev["a"] in ("Crash", "Hang", "Garbled", "Missing"):
@@ -140,8 +157,9 @@ def validate(ck, events, what, behs, binding):
             ck.violation(sig, {"binding": binding, "matched_prefix": matched, "rejected_event": ev,
                                "previous_event": events[matched - 1] if matched else None,
                                "behaviour": beh, "tlc": (tres2.violation or ""), "part": "x11_notify",
-                               "poll": bool(MODE[0])})
+                               "poll": MODE[0] == "poll:", "cxx": MODE[0] == "cxx:" or bool(ev and ev.get("cxx"))})
             bad = ev
+            MODE[0] = saved
         else:
             ok, matched = ok2, matched2
     return ok, matched, bad
@@ -158,7 +176,8 @@ def defer(ck, behs, recs, mms):
         per_sig[sig] = per_sig.get(sig, 0) + 1
         if per_sig[sig] <= 2:
             ck.violation(sig, {"binding": "A(replay)", "behaviour": behs[mm["b"]], "step": mm["i"], "why": mm["why"],
-                               "record": mm["rec"], "part": "x11_notify", "poll": bool(MODE[0])})
+                               "record": mm["rec"], "part": "x11_notify", "poll": MODE[0] == "poll:",
+                               "cxx": MODE[0] == "cxx:"})
     accepted = 0
     todo = soft[:MAX_DEFER]
     while todo:
@@ -209,7 +228,7 @@ def limbs(v):
     return [(v >> (16 * i)) & 0xffff for i in range(4)]
 
 
-def gen_histories(ck, n, steps):
+def gen_histories(ck, n, steps, cxx=False):
     rng = ck.rng
     behs = []
     for hno in range(n):
@@ -250,7 +269,7 @@ def gen_histories(ck, n, steps):
         kinds = {}
         for _ in range(rng.randrange(2, 7)):
             nin += 1
-            kinds[nin] = rng.choice("hhsssccf")
+            kinds[nin] = rng.choice("hhsss" if cxx else "hhsssccf")
             beh.append({"a": "add", "arg": {"k": kinds[nin], "tok": nin}})
         if hno % 2 == 0:
             # a burst on a fresh library input that fills what it reads in one go (4 messages, 64 bytes on the wire), then the loop
@@ -260,7 +279,7 @@ def gen_histories(ck, n, steps):
                 n = 12 if kinds[i] == "c" else 14
                 for k in range(4):
                     beh.append({"a": "send", "arg": {"i": i, "data": [rng.choice(ids), i, k] + [rng.randrange(1, 256) for _ in range(n - 3)]}})
-                beh.append({"a": "loop", "arg": {"rs": [0, 0, 1, 0, 0, 0], "rvs": [1] * nin}})
+                beh.append({"a": "wait" if cxx else "loop", "arg": {"what": -1, "rvs": [1] * nin} if cxx else {"rs": [0, 0, 1, 0, 0, 0], "rvs": [1] * nin}})
         if hno % 4 == 1:
             # traffic in installments on a fresh socket-pair input: more than it reads in one go, a wait, more, then the loop
             cand = [i for i in kinds if kinds[i] == "s"]
@@ -271,8 +290,15 @@ def gen_histories(ck, n, steps):
                 beh.append({"a": "wait", "arg": {"what": -1, "rvs": [1] * nin}})
                 for n in (3, 43, 3, 4):
                     beh.append({"a": "send", "arg": {"i": i, "data": [rng.choice(ids), i] + [rng.randrange(256) for _ in range(n - 2)]}})
-                beh.append({"a": "loop", "arg": {"rs": [0] * 12, "rvs": [1] * nin}})
-        if hno % 4 == 2:
+                if cxx:
+                    for _ in range(3):
+                        beh.append({"a": "wait", "arg": {"what": -1, "rvs": [1] * nin}})
+                        beh.append({"a": "next", "arg": {"x": 0}})
+                        for _ in range(5):
+                            beh.append({"a": "dispatch", "arg": {"r": 0, "clear": 0}})
+                else:
+                    beh.append({"a": "loop", "arg": {"rs": [0] * 12, "rvs": [1] * nin}})
+        if hno % 4 == 2 and not cxx:
             # a listener accepts a connection (the slot table grows) while another input is ready in the same wait
             nin += 1
             listener = nin
@@ -286,6 +312,8 @@ def gen_histories(ck, n, steps):
             op = rng.choice(["send", "send", "send", "send", "shut", "wait", "wait", "next", "dispatch", "dispatch",
                              "dispatch", "loop", "loop", "unreg", "table", "attach", "refuse", "listen", "conn", "conn",
                              "relist", "default", "fini"])
+            if cxx and op in ("loop", "listen", "conn", "relist"):
+                op = rng.choice(["wait", "next", "dispatch"])
             if op == "send" and live:
                 i = rng.choice(live)
                 for _ in range(rng.choice([1, 1, 2, 3, 6])):
@@ -441,10 +469,32 @@ def run_part(ck, tier):
                           "of_these_accepted_by_tlc": paccepted, "replay_mismatch_kinds": pkinds}
     mark("poll_path")
 
+    # 2c. the mpt++ notify class (inputs of the C++ interface): a share of the behaviours it can execute
+    excxx = build_cxx()
+    cbehs = cxx_subset(pbehs if cfg["poll_gen"] else [b for b in behs if all("exp" in st for st in b)])[::cfg["cxx_every"]]
+    MODE[0] = "cxx:"
+    try:
+        crecs, cdone = run_chunks(excxx, cbehs)
+        cmms = vlib.compare(cbehs[:cdone], crecs, match)
+        caccepted, csoft, ckinds = defer(ck, cbehs, crecs, cmms)
+    finally:
+        MODE[0] = ""
+    ck.cov["evaluations"] += cdone
+    notes["cxx"] = {"replayed_behaviours": cdone, "replay_differences_handed_to_tlc": csoft,
+                    "of_these_accepted_by_tlc": caccepted, "replay_mismatch_kinds": ckinds}
+    mark("cxx")
+
     # 3. binding B: seeded histories (fine-grained calls and runs of the real mpt_loop) validated by TLC
     hist = gen_histories(ck, cfg["nhist"], cfg["steps"])
     recs2, _ = vlib.run_driver(exe, vlib.to_script(hist), env=ENV, timeout=1200)
     events = flatten(hist, recs2)
+    hx = gen_histories(ck, max(cfg["nhist"] // 4, 6), cfg["steps"], cxx=True)
+    recs3, _ = vlib.run_driver(excxx, vlib.to_script(hx), env=ENV, timeout=1200)
+    evx = flatten(hx, recs3, base=len(hist))
+    for e in evx:
+        e["cxx"] = 1
+    events += evx
+    hist = hist + hx
     mark("histories_run")
     ok, matched, bad = validate(ck, events, "hist", hist, "B(trace validation)")
     mark("trace_validation")
@@ -476,7 +526,7 @@ def replay(det, path="-"):
     if not beh:
         print(json.dumps(det, indent=1)[:4000])
         return 2
-    exe = build_poll() if det.get("poll") else build()
+    exe = build_poll() if det.get("poll") else build_cxx() if det.get("cxx") else build()
     recs, err = vlib.run_driver(exe, vlib.to_script([beh]), env=ENV)
     events = flatten([beh], recs)
     ok, matched, _ = vlib.validate_trace("Trace_Notify", events, tag="Trace_Notify_replay")
